@@ -33,71 +33,11 @@ import (
 
 	"verif/internal/ev"
 	"verif/internal/hx"
-	"verif/internal/kf"
 	"verif/internal/memfs"
 	"verif/internal/run"
 )
 
 const prop = "C16"
-
-// findLoadedString (open): a string rendered on a Template that was loaded from component F and
-// that includes F identifies its own v-once elements with F's name, so they collide with F's.
-// Excluded region, by construction: string-entry steps whose On file is a component that the
-// page body includes (directly or through other components) when both the body and that
-// component contain a v-once element. Every other On (the page file, components the body does
-// not include, components or bodies without marked elements) is still searched.
-const findLoadedString = "C16-string-on-loaded-template-borrows-its-name"
-
-func countOnce(items []Item) int {
-	n := 0
-	for _, it := range items {
-		if it.K == "once" {
-			n++
-		}
-		n += countOnce(it.Kids)
-	}
-	return n
-}
-
-// includes reports whether comp is reachable from items through include items.
-func includes(c *Case, items []Item, comp string, depth int) bool {
-	if depth > len(compOrder)+1 {
-		return false
-	}
-	for _, it := range items {
-		if it.K == "inc" && (it.Comp == comp || includes(c, c.Comps[it.Comp], comp, depth+1)) {
-			return true
-		}
-		if includes(c, it.Kids, comp, depth) {
-			return true
-		}
-	}
-	return false
-}
-
-// inLoadedStringRegion says whether step s lies in the region of findLoadedString.
-func inLoadedStringRegion(c *Case, s Step) bool {
-	if s.On == "" || !strings.HasPrefix(s.On, "components/") {
-		return false
-	}
-	comp := strings.TrimSuffix(strings.TrimPrefix(s.On, "components/"), ".vuego")
-	body := c.Pages[s.P].Items
-	return countOnce(body) > 0 && countOnce(c.Comps[comp]) > 0 && includes(c, body, comp, 0)
-}
-
-// avoidKnown rewrites the steps that lie in the region of an open finding (On is dropped) and
-// counts them.
-func avoidKnown(rec *ev.Rec, c *Case, openLoaded bool) {
-	if !openLoaded {
-		return
-	}
-	for i, s := range c.Steps {
-		if inLoadedStringRegion(c, s) {
-			c.Steps[i].On = ""
-			rec.Excluded(findLoadedString)
-		}
-	}
-}
 
 // ---------------------------------------------------------------------------------------------
 // description
@@ -1071,7 +1011,7 @@ func (g *gen) items(label string, comp, depth int, inLoop bool, max int) []Item 
 	return out
 }
 
-func genCase(rec *ev.Rec, openLoaded bool) func(t *rapid.T) Case {
+func genCase() func(t *rapid.T) Case {
 	return func(t *rapid.T) Case {
 		g := &gen{t: t}
 		g.budget = rapid.IntRange(1, run.Pick(4, 6)).Draw(t, "once")
@@ -1165,7 +1105,6 @@ func genCase(rec *ev.Rec, openLoaded bool) func(t *rapid.T) Case {
 			}
 			c.Steps = append(c.Steps, s)
 		}
-		avoidKnown(rec, &c, openLoaded)
 		return c
 	}
 }
@@ -1181,7 +1120,6 @@ func TestProp(t *testing.T) {
 	defer run.Finish(t, rec)
 	run.Witnesses(rec, prop, replay)
 
-	openLoaded := kf.Load().Open(findLoadedString)
 	shard, shards := run.Shard()
 	// exhaustive: every choice of 1..k slots of the universe site x parameter sets x entry histories
 	params := []uparams{
@@ -1208,7 +1146,6 @@ enum:
 				}
 				c := universe(fill, p)
 				c.Steps = historyFor(k)
-				avoidKnown(rec, &c, openLoaded)
 				nt, cls := classify(c)
 				if !run.Each(rec, "enum", c, nt, cls, check) {
 					ok = false
@@ -1221,7 +1158,7 @@ enum:
 		rec.Exhaustive(fmt.Sprintf("universe site: every choice of 1..%d of its slots x %d parameter sets x %d entry histories (%d cases)", maxFill, len(params), len(entries), n))
 	}
 
-	run.Rapid(t, rec, "random", genCase(rec, openLoaded), classify, check)
+	run.Rapid(t, rec, "random", genCase(), classify, check)
 }
 
 func TestReplay(t *testing.T) { run.ReplayMain(t, prop, replay) }
